@@ -4,7 +4,10 @@
 selftest/harmless/<PROP>.<name>.diff are behaviour-preserving refactors of /repo (renamed locals, reordered independent
 statements, extracted helpers, cached values, dispatch tables, a set comprehension instead of a loop, an extra private
 attribute).  Each is applied to a scratch copy outside /repo and /verif; the property's check (and the checks listed in
-ALSO) must exit 0 - no VIOLATION, no 'undecided' from the obligation lock.  /repo is never touched."""
+ALSO) must exit 0 - no VIOLATION, no 'undecided' from the obligation lock.  The <PROP>.agent-refactor.diff patches were
+written by sub-agents that saw only the property text (larger restructurings, 80-200 changed lines each, each shown
+equivalent by the agent's own differential test).  One of them is expected to leave the deductive units UNDECIDED
+(exit 2, never a VIOLATION line): see EXPECT_UNDECIDED.  /repo is never touched."""
 import os
 import shutil
 import subprocess
@@ -14,6 +17,15 @@ import tempfile
 HERE = os.path.dirname(os.path.dirname(os.path.abspath(__file__)))
 ALSO = {"C17.hid-status-helper": ["C15", "C16", "C18", "C20"], "C05.frame-mask-cache": ["C04", "C01"],
         "C19.luba-dispatch-table": ["C16", "C20", "C18"], "C07.commissioning-helper": [], "C08.query-groups-comprehension": []}
+
+
+# restructurings the loop rule / the path budget cannot follow: the check must say "undecided" (exit 2), and must not
+# print a VIOLATION line
+EXPECT_UNDECIDED = {
+    "C07.agent-refactor": "Commissioning split into four generators: the three loop invariants are written over one "
+                          "function's locals (the 'finished' flag became a return value, the address list is handed "
+                          "over by reference)",
+}
 
 
 def main():
@@ -39,7 +51,12 @@ def main():
                 r = subprocess.run([os.path.join(HERE, ".venv/bin/python"), "-m", "pyvc.main", p, "--no-evidence"],
                                    cwd=HERE, env=env, capture_output=True, text=True)
                 ok = r.returncode == 0
-                print("%-45s %s %s" % (stem, p, "quiet" if ok else "ALARM(rc=%d)" % r.returncode))
+                if stem in EXPECT_UNDECIDED and p == prop:
+                    ok = r.returncode in (0, 2) and "VIOLATION" not in r.stdout
+                    print("%-45s %s %s" % (stem, p, ("undecided as expected (rc=%d)" % r.returncode) if ok
+                                           else "ALARM(rc=%d)" % r.returncode))
+                else:
+                    print("%-45s %s %s" % (stem, p, "quiet" if ok else "ALARM(rc=%d)" % r.returncode))
                 if not ok:
                     bad += 1
                     print("    " + "\n    ".join(l[:200] for l in r.stdout.splitlines()
